@@ -18,9 +18,12 @@ Definition all_with (f : expr -> bool) : list expr -> bool :=
   fix go (l : list expr) : bool := match l with [] => true | x :: l' => f x && go l' end.
 Definition opt_with (f : expr -> bool) (o : option expr) : bool := match o with None => true | Some x => f x end.
 
+(* (both guards also say that the blank identifier is never read: Go's type checker rejects such a program; the
+   proofs use it to ignore blank parameters, which share one name) *)
 Fixpoint no_logic (e : expr) : bool :=
   match e with
-  | EConst _ _ | EIdent _ _ | EUnaryBad | EBad => true
+  | EIdent x _ => negb (x =? name_blank)
+  | EConst _ _ | EUnaryBad | EBad => true
   | EParen x | ENot x | ESelector _ _ x => no_logic x
   | EBinary op _ x y => match op with OLor | OLand => false | _ => no_logic x && no_logic y end
   | ESlice _ x lo hi _ => no_logic x && opt_with no_logic lo && opt_with no_logic hi
@@ -42,7 +45,8 @@ Definition safe_seq_with (sf : expr -> bool) : list expr -> bool -> Z -> Z -> bo
 
 Fixpoint safe (e : expr) : bool :=
   match e with
-  | EConst _ _ | EIdent _ _ | EUnaryBad | EBad => true
+  | EIdent x _ => negb (x =? name_blank)
+  | EConst _ _ | EUnaryBad | EBad => true
   | EParen x | ENot x | ESelector _ _ x => safe x
   | EBinary op _ x y =>
       match op with
@@ -71,6 +75,38 @@ Definition ret_wf (e : expr) : bool :=
 Fixpoint nodup_names (l : list (Z * ty)) : bool :=
   match l with [] => true | (x, _) :: l' => negb (existsb (fun '(y, _) => x =? y) l') && nodup_names l' end.
 
+Lemma nodup_names_NoDup l : nodup_names l = true -> NoDup (map fst l).
+Proof.
+  induction l as [|[x t] l IH]; cbn [nodup_names map fst]; intros H; [constructor|].
+  apply andb_prop in H as [H1 H2]. constructor; [|auto]. intros Hi. apply negb_true_iff in H1.
+  apply in_map_iff in Hi as ([y u] & E & Hi). cbn [fst] in E. subst y.
+  assert (existsb (fun '(y, _) => x =? y) l = true); [|congruence].
+  apply existsb_exists. exists (x, u). split; [exact Hi|apply Z.eqb_refl].
+Qed.
+
+(* parameter names: distinct, except that the blank name may repeat *)
+Fixpoint nodup_nonblank (l : list (Z * ty)) : bool :=
+  match l with
+  | [] => true
+  | (x, _) :: l' => ((x =? name_blank) || negb (existsb (fun '(y, _) => x =? y) l')) && nodup_nonblank l'
+  end.
+
+Inductive NoDupNB : list Z -> Prop :=
+| NB_nil : NoDupNB []
+| NB_blank l : NoDupNB l -> NoDupNB (name_blank :: l)
+| NB_cons x l : x <> name_blank -> ~ In x l -> NoDupNB l -> NoDupNB (x :: l).
+
+Lemma nodup_nonblank_NoDupNB l : nodup_nonblank l = true -> NoDupNB (map fst l).
+Proof.
+  induction l as [|[x t] l IH]; cbn [nodup_nonblank map fst]; intros H; [constructor|].
+  apply andb_prop in H as [H1 H2]. destruct (Z.eqb_spec x name_blank) as [->|Hne].
+  - apply NB_blank. auto.
+  - cbn [orb] in H1. apply NB_cons; [exact Hne| |auto]. intros Hi. apply negb_true_iff in H1.
+    apply in_map_iff in Hi as ([y u] & E & Hi). cbn [fst] in E. subst y.
+    assert (existsb (fun '(y, _) => x =? y) l = true); [|congruence].
+    apply existsb_exists. exists (x, u). split; [exact Hi|apply Z.eqb_refl].
+Qed.
+
 Definition safe_opt (o : option expr) : bool := match o with None => true | Some e => safe e end.
 
 Fixpoint safe_stmt (s : stmt) : bool :=
@@ -79,8 +115,9 @@ Fixpoint safe_stmt (s : stmt) : bool :=
   match s with
   | SReturn res => forallb safe res && forallb ret_wf res
   | SAssign tok lhs _ rhs =>
-      (* plain assignment of a tuple (a, b = f()) is outside the proved subset; a, b := f() is inside *)
-      safe rhs && match tok with AAssign => (match lhs with [_] => true | _ => false end) | _ => negb (match lhs with [] => true | _ => false end) end
+      (* a plain assignment (a, b = f()) writes distinct variables: the machine stores the values last-to-first, Go
+         first-to-last (for `:=` the compiler itself rejects a repeated name) *)
+      safe rhs && negb (match lhs with [] => true | _ => false end) && match tok with AAssign => nodup_names lhs | _ => true end
   | SIncDec _ _ | SBreak | SBad => true
   | SIf init c t e => opt init && safe c && all t && opt e
   | SFor init c post body => opt init && safe_opt c && opt post && all body
